@@ -11,7 +11,9 @@ from ..harness import Clause, Prop, require, rt
 CI_METHODS = ["quantile", "bc", "bca"]
 SMOOTH = [("replacement+smoothing", None), ("dynamic+smoothing", "by_label")]
 BUILTIN = SMOOTH + [("replacement", None), ("replacement", "by_label"), ("single_pass", None),
-           ("single_pass", "by_label"), ("dynamic", None), ("proportion", None)]
+           ("single_pass", "by_label"), ("dynamic", None), ("dynamic", None), ("proportion", None),
+           # "by_group ... Defaults to non-stratified sampling, if no groups are present."
+           ("replacement", "by_group"), ("single_pass", "by_group"), ("dynamic", "by_group")]
 GROUP_BUILTIN = [("replacement", None), ("replacement", "by_label"), ("replacement", "by_group"),
                  ("single_pass", None), ("dynamic", "by_group")]
 
@@ -26,6 +28,11 @@ def _metric(spec, thr, k):
     if name == "threshold_at_fnr":
         kw = dict(fnr=np.asarray([0.25, 0.5]), method="lower")
         return name, kw, lambda o: np.asarray(o.threshold_at_fnr(np.asarray([0.25, 0.5]), method="lower"))
+    if name in ("threshold_at_tpr", "threshold_at_tnr", "threshold_at_topr", "threshold_at_tar"):
+        # the targets are handed over as one float64 array that every evaluation receives
+        arg = {"threshold_at_tar": "tar"}.get(name, name.split("_")[-1])
+        kw = {arg: np.asarray([0.25, 0.5, 0.8])}
+        return name, kw, lambda o: np.asarray(getattr(o, name)(np.asarray([0.25, 0.5, 0.8])))
     if name == "auc":
         kw = dict(lower=0.0, upper=0.5)
         return name, kw, lambda o: np.asarray(o.auc(0.0, 0.5))
@@ -52,7 +59,8 @@ def _metric(spec, thr, k):
     raise ValueError(name)
 
 
-SCORE_METRICS = ["tpr", "fnr", "fpr", "tonr", "threshold_at_fnr", "auc", "eer", "call-scalar",
+SCORE_METRICS = ["tpr", "fnr", "fpr", "tonr", "threshold_at_fnr", "threshold_at_tpr", "threshold_at_tnr",
+                 "threshold_at_topr", "threshold_at_tar", "auc", "eer", "call-scalar",
                  "call-vector", "call-vector", "call-scalar", "call-matrix", "call-mean", "call-ppv", "call-ppv"]
 GROUP_METRICS = ["group_fpr", "group_tnr", "group_fnr", "fnr", "call-vector", "call-mean"]
 
@@ -106,7 +114,10 @@ def _cases(draw):
                 seed=draw(gen.RNG_SEED), seed2=draw(gen.RNG_SEED),
                 alpha=draw(st.sampled_from([0.05, 0.1, 0.3, 0.5])), ci=draw(st.sampled_from(CI_METHODS)),
                 alpha_vec=draw(st.one_of(st.none(), st.lists(st.sampled_from([0.01, 0.05, 0.2, 0.5, 0.9]),
-                                                             min_size=1, max_size=3))))
+                                                             min_size=1, max_size=3))),
+                # run-time setting of the documented dynamic switch (plain Scores; None = shipped 100)
+                callable_kind=draw(st.sampled_from(gen.CALLABLE_KINDS)),
+                switch=None if d["groups"] else draw(st.sampled_from([None, None, 3, 5, 8])))
 
 
 def _eq(a, b):
@@ -115,12 +126,27 @@ def _eq(a, b):
 
 
 def check(case):
+    import score_analysis.scores as sa_scores
+
+    shipped = sa_scores.SINGLE_PASS_SAMPLE_THRESHOLD
+    if case.get("switch") is not None:
+        sa_scores.SINGLE_PASS_SAMPLE_THRESHOLD = case["switch"]
+    try:
+        return _check(case, case.get("switch") or shipped)
+    finally:
+        sa_scores.SINGLE_PASS_SAMPLE_THRESHOLD = shipped
+
+
+def _check(case, switch):
     from score_analysis import BootstrapConfig, utils
 
     d = case["d"]
     o = _build(d)
     thr = gen.np_array(case["thr"]["flat"], tuple(case["thr"]["shape"]))
     metric, kw, ref = _metric(case["metric"], thr, case["k"])
+    ck = case.get("callable_kind", "function")
+    if not isinstance(metric, str):
+        metric = gen.wrap_callable(metric, ck)  # callables come in many shapes
     nb = case["nb"]
     theta_hat = ref(o)
     ctx = f"metric={case['metric']} nb_samples={nb} object={'GroupScores' if d['groups'] else 'Scores'}"
@@ -132,7 +158,7 @@ def check(case):
         calls.append(source)
         return _build(d, shift=float(len(calls)))
 
-    rows = o.bootstrap_metric(metric, config=BootstrapConfig(nb_samples=nb, sampling_method=counting), **kw)
+    rows = o.bootstrap_metric(metric, config=BootstrapConfig(nb_samples=nb, sampling_method=gen.wrap_callable(counting, ck)), **kw)
     require(len(calls) == nb, "bm:sampler-calls", f"{ctx}: sampler called {len(calls)} times")
     require(all(c is o for c in calls), "bm:sampler-source", f"{ctx}: sampler not given the object itself")
     require(rows.shape == (nb,) + theta_hat.shape, "bm:shape",
@@ -150,8 +176,20 @@ def check(case):
                           bootstrap_method=case["ci"], smoothing=smoothing)
     np.random.seed(case["seed"])
     rows_b = o.bootstrap_metric(metric, config=cfg, **kw)
+    # the replay spells the configuration out where the documentation defines it by another one:
+    # by_group on an object without groups = not stratified; dynamic = replacement below the
+    # switch (or with smoothing), single pass above it
+    r_method, r_strat = method.split("+")[0], strat
+    if not d["groups"]:
+        if r_strat == "by_group":
+            r_strat = None
+        n_, m_ = len(d["pos"]), len(d["neg"])
+        if r_method == "dynamic" and n_ != switch and m_ != switch:
+            r_method = "replacement" if (n_ < switch or m_ < switch or smoothing) else "single_pass"
+    cfg_replay = BootstrapConfig(nb_samples=nb, sampling_method=r_method, stratified_sampling=r_strat,
+                                 ratio=cfg.ratio, bootstrap_method=case["ci"], smoothing=smoothing)
     np.random.seed(case["seed"])
-    manual = [ref(o.bootstrap_sample(cfg)) for _ in range(nb)]
+    manual = [ref(o.bootstrap_sample(cfg_replay)) for _ in range(nb)]
     require(rows_b.shape == (nb,) + theta_hat.shape, "bm:shape", f"{ctx}: builtin {rows_b.shape}")
     for j in range(nb):
         require(_eq(rows_b[j], manual[j]), "bm:seeded-replay",
@@ -226,6 +264,9 @@ def check(case):
             require(_eq(ci[..., 0], th) and _eq(ci[..., 1], th), "bci:identity",
                     lambda: f"{ctx} ci={cm_}: identity sampler gives {ci.tolist()} for estimate {th.tolist()}")
     labels = [f"metric:{case['metric']}", f"sampler:{method}/{strat}", f"ci:{case['ci']}"]
+    if case.get("switch") is not None:
+        labels.append(f"switch:{case['switch']}")
+    labels.append(f"callable:{ck}")
     if np.isnan(np.asarray(rows_b, dtype=float)).any():
         labels.append("nan-replicates")
     return dict(nontrivial=nb >= 2, labels=labels)
@@ -366,4 +407,4 @@ PROP = Prop(
                  "for the wiring"],
 )
 
-RULE_EXTRA = ('metrics scaled by 1e-8..1e6; NaN-producing metric; smoothing configurations; independent re-implementation of the documented formulas (C13) as reference; clause config_sequences: 2-4 bootstrap configurations in a row on one object (3-12 or 100-125 scores per class) against fresh equal objects under the same seed.')
+RULE_EXTRA = ('threshold_at_* metrics whose targets are one shared float64 array; SINGLE_PASS_SAMPLE_THRESHOLD re-assigned at run time (3/5/8) and by_group on group-less objects, both replayed through the configuration the documentation equates them with; samplers and metrics as function / lambda / partial / bound method / callable object / dataclass instance; metrics scaled by 1e-8..1e6; NaN-producing metric; smoothing configurations; independent re-implementation of the documented formulas (C13) as reference; clause config_sequences: 2-4 bootstrap configurations in a row on one object (3-12 or 100-125 scores per class) against fresh equal objects under the same seed.')
